@@ -9,7 +9,7 @@ use serde_json::{json, Value};
 use crate::case::*;
 use crate::model::*;
 use crate::runner::*;
-use crate::seq::run_seq_case;
+use crate::seq::{run_seq_case, run_seq_case_focus};
 
 pub type NtRule = fn(&CaseStats) -> bool;
 
@@ -185,7 +185,11 @@ pub fn seq_campaigns(property: &str) -> Vec<SeqCampaign> {
             probe("probe-F7", profile("C08"), Policy { allow_upsert_on_dead_entry: true, ..Policy::default() }),
         ],
         "C09" => vec![main("seq-main", 4000, 80_000, nt_c09, RULE_C09)],
-        "C10" => vec![main("seq-main", 1500, 30_000, nt_c10, RULE_C10)],
+        "C10" => vec![
+            main("seq-main", 1500, 30_000, nt_c10, RULE_C10),
+            SeqCampaign { name: "seq-reput-expired", params: profile("C10"), policy: Policy { allow_put_on_expired_unswept: true, ..Policy::default() }, cases_quick: 1500, cases_thorough: 20_000, nt: |s| s.swept_keys >= 1 && s.puts_on_used_key >= 1,
+                rule: "as seq-main, but puts of keys that are past their time-to-live and not yet swept are generated too (their refusal, known finding F6 of C07, is noted and does not end the case): a re-put that is accepted must survive the sweep of the old incarnation; non-trivial = a sweep removed a key and a previously written key was put again" },
+        ],
         "C11" => vec![main("seq-bursts", 3000, 50_000, nt_c11, RULE_C11)],
         "C16" => vec![main("seq-main", 3000, 60_000, nt_c16, RULE_C16)],
         "C17" => vec![
@@ -198,8 +202,10 @@ pub fn seq_campaigns(property: &str) -> Vec<SeqCampaign> {
     }
 }
 
-pub fn seq_case_result(case: &SeqCase, policy: &Policy, nt: NtRule) -> CaseResult {
-    let outcome = run_seq_case(case, policy);
+pub fn seq_case_result(case: &SeqCase, policy: &Policy, nt: NtRule) -> CaseResult { seq_case_result_focus(case, policy, nt, "") }
+
+pub fn seq_case_result_focus(case: &SeqCase, policy: &Policy, nt: NtRule, focus: &str) -> CaseResult {
+    let outcome = run_seq_case_focus(case, policy, focus);
     CaseResult {
         nontrivial: nt(&outcome.stats) && outcome.failure.is_none(),
         classes: classes_of(&outcome.stats),
@@ -213,7 +219,8 @@ pub fn run_seq_campaign(context: &CheckContext, campaign: &SeqCampaign) -> (Camp
     let cases = if context.tier == "thorough" { campaign.cases_thorough } else { campaign.cases_quick };
     let policy = campaign.policy.clone();
     let nt = campaign.nt;
-    let run_case: Arc<dyn Fn(&SeqCase) -> CaseResult + Send + Sync> = Arc::new(move |case: &SeqCase| seq_case_result(case, &policy, nt));
+    let focus = context.property.clone();
+    let run_case: Arc<dyn Fn(&SeqCase) -> CaseResult + Send + Sync> = Arc::new(move |case: &SeqCase| seq_case_result_focus(case, &policy, nt, &focus));
     let (report, found) = run_campaign(context, campaign.name, "SEQ", campaign.rule, cases, { let params = campaign.params.clone(); Arc::new(move || seq_case_strategy(&params)) }, run_case);
     let violation = found.map(|(case, failure)| {
         let replay = Replay {
